@@ -79,6 +79,8 @@ class Engine:
         self.claims = []  # Claim objects (deduplicated)
         self._claim_keys = set()
         self.limits = []  # (decisions, message)
+        self.limit_models = []  # (model, message): solver-chosen inputs leading to a path the engine could not finish
+        self._limit_seen = {}
         self.inputs = {}  # name -> z3 const (declaration order)
         self.mc_states = set()
         self.mc_transitions = set()
@@ -296,6 +298,13 @@ class Engine:
             while len(vals) <= limit:
                 self.feas_queries += 1
                 r = self.solver.check()
+                if r == z3.unknown:
+                    # forking needs a definite answer: retry once with the (longer) claim time-out
+                    self.solver.set("timeout", self.claim_timeout_ms)
+                    try:
+                        r = self.solver.check()
+                    finally:
+                        self.solver.set("timeout", self.feas_timeout_ms)
                 if r == z3.unsat:
                     break
                 if r != z3.sat:
@@ -472,6 +481,15 @@ class Engine:
                         traceback.print_exc()
                     outcome = ("limit", str(e)[:300])
                     self.limits.append((_dec_repr(self.decisions[: self.pos]), str(e)[:300]))
+                    why = str(e)[:60]
+                    if len(self.limit_models) < 12 and self._limit_seen.get(why, 0) < 3:
+                        # concolic fall-back: an input satisfying the path condition up to the limit, to be run on the real code
+                        self._limit_seen[why] = self._limit_seen.get(why, 0) + 1
+                        t = time.time()
+                        r = self.solver.check()
+                        self.solver_time += time.time() - t
+                        if r == z3.sat:
+                            self.limit_models.append((self._model_dict(self.solver.model()), why))
                 if outcome == "ok" and sample_models and self.path_obs:
                     # model for the concretisation cross-check
                     t = time.time()
